@@ -87,6 +87,8 @@ class Run:
                     self.do_repeat3(i, op)
             elif kind == 'soak_distinct':
                 self.do_soak(i, op)
+            elif kind == 'fail_census':
+                self.do_fail_census(i, op)
             else:
                 if kind != 'resolve':
                     self.host.apply_host_op(op)
@@ -280,6 +282,55 @@ class Run:
                     'grew between 2nd and 3rd identical call': g_inst[:8]})
         elif 'C08' in self.props:
             self.count('census:skipped(call did not return normally)')
+
+    # -- nothing of a FAILED call stays alive once the caller let go of the exception ----
+    def do_fail_census(self, i, op):
+        """ok call twice (warm-up), census A; then the failing call, twice, each time the host lets go of the
+        exception object; census C. Library objects that are alive at C and were not at A were created by a
+        failed call and kept by the library (an exception stored for diagnostics drags the frames of the failed
+        call, its Config, the caller's callbacks and texts with it). One slot is enough to violate: this is not
+        a growth measure."""
+        host = self.host
+        h = host.cfgs[op['cfg']]
+        ok = {'op': 'call', 'cfg': op['cfg'], 'abbr': op['ok'], 'pin': 0}
+        bad = {'op': 'call', 'cfg': op['cfg'], 'abbr': op['bad'], 'pin': 0}
+        for _ in range(2):
+            outcome, info = host.call(ok, None)
+            ok_class = outcome[0]
+            del outcome
+        saved = h.last_error
+        h.last_error = None
+        inst_a, _pay, alive_a = census.instance_census(_roots(host))
+        cont_a = census.container_census()
+        classes = []
+        for _ in range(2):
+            outcome, info = host.call(bad, dict(op['fault']) if op.get('fault') else None)
+            classes.append(outcome[0])
+            del outcome, info
+            h.last_error = None
+        inst_c, _pay, alive_c = census.instance_census(_roots(host))
+        cont_c = census.container_census()
+        h.last_error = saved
+        self.count('op:fail_census')
+        self.events.append([i, 'fail_census', ok_class, classes])
+        self.shape.append(['fail_census', op['cfg'], None, classes[-1]])
+        if 'C08' not in self.props:
+            return
+        if ok_class != 'ok' or any(c == 'ok' for c in classes):
+            self.count('fail-census:skipped(the calls did not end as planned)')
+            return
+        self.count('fail-census:measured')
+        fresh = sorted(set(k for i_, k in alive_c.items() if i_ not in alive_a))
+        g_cont = census.growth(cont_a, cont_c)
+        if fresh:
+            self.violate('C08', 'leak', 'kept-after-failure:%s' % fresh[0], i, {
+                'cfg': op['cfg'], 'failing call': op['bad'], 'fault': op.get('fault'),
+                'library objects created by a failed call that are still alive after the caller let go of the exception': fresh[:8],
+                'instances before / after': census.growth(inst_a, inst_c)[:8]})
+        elif g_cont:
+            self.violate('C08', 'leak', 'kept-after-failure:%s' % g_cont[0][0], i, {
+                'cfg': op['cfg'], 'failing call': op['bad'], 'fault': op.get('fault'),
+                'module-lifetime containers that two failed calls left larger than two successful calls had': g_cont[:8]})
 
     # -- unbounded growth with distinct inputs ------------------------------------
     @staticmethod
